@@ -411,9 +411,14 @@ def handle (cur : Option Transport) (op : String) (a : Proto.Args) : Option Tran
   | "new" =>
     let f := fnOfArgs a
     let o := newT f
+    -- compared: the verdict, the windows requested from the platform (unordered group) and the final
+    -- configuration state; the configuration accesses of `new` themselves are not (how often BARs are
+    -- sized is not fixed by the property)
+    let ps := (o.trace.filter fun a => match a with | .p2v .. => true | _ => false).map Acc.str
+    let pstr := if ps.isEmpty then "-" else "{ " ++ Proto.joinWith " " ps ++ " }"
     match o.res with
-    | .ok t => (some t, s!"ok {t.str} | {traceStr o.trace} | {o.fin.stateStr}")
-    | .error e => (none, s!"err {e.str} | {traceStr o.trace} | {o.fin.stateStr}")
+    | .ok t => (some t, s!"ok {t.str} | {pstr} | {o.fin.stateStr}")
+    | .error e => (none, s!"err {e.str} | {pstr} | {o.fin.stateStr}")
   | "op" =>
     match cur, opOfArgs (a.str "name") a with
     | some t, some o =>
